@@ -10,6 +10,8 @@ open Genq
 #print axioms C06_marshaled_object_covers_every_field
 #print axioms C06_marshaled_keys_unique_model
 #print axioms C06_typename_once_model
+#print axioms C06_roundtrip_of_decoded_model
+#print axioms C06_decoded_values_are_wellformed
 #print axioms C06_roundtrip_needs_coherence_witness
 #print axioms C06_null_object_with_abstract_list_witness
 #print axioms C06_codec_template_tie
